@@ -386,9 +386,12 @@ def conclude(mod, prop, tier, seed, merged, distinct, wall, replaying=False):
             "wall_s": round(wall, 2),
             "violations": violations,
         }
-        os.makedirs(os.path.join(VERIF_DIR, "evidence"), exist_ok=True)
+        # evidence is only ever about /repo itself; runs against a scratch copy
+        # (mutant validation, VERIF_REPO=...) write to a git-ignored directory
+        evidence_dir = "evidence" if bootstrap.REPO == "/repo" else "evidence_scratch"
+        os.makedirs(os.path.join(VERIF_DIR, evidence_dir), exist_ok=True)
         with open(
-            os.path.join(VERIF_DIR, "evidence", f"{prop}.json"), "w", encoding="utf8"
+            os.path.join(VERIF_DIR, evidence_dir, f"{prop}.json"), "w", encoding="utf8"
         ) as handle:
             json.dump(evidence, handle, indent=1, sort_keys=True)
             handle.write("\n")
